@@ -497,6 +497,9 @@ class Facts:
         with open(path) as fh:
             self.j = json.load(fh)
         self.crate = self.j["crate"]
+        # private helpers that are new relative to the inventory the rules were written against are inlined into their callers
+        import inliner
+        self.inlined = inliner.inline_new_helpers(self.crate, self.j["fns"])
         self.fns = {}
         cnt = defaultdict(int)
         for f in self.j["fns"]:
